@@ -15,6 +15,7 @@ import (
 	"bufio"
 	"bytes"
 	"encoding/json"
+	"errors"
 	"fmt"
 	"io"
 	"math/rand"
@@ -208,6 +209,13 @@ type c15Case struct {
 	// arrives in origin-form, scheme/host filled in from Host) | path-query |
 	// host-scheme | all
 	Rewrite string `json:"rewrite,omitempty"`
+	// API: the skip-logging exchange is marked the way api.Forwarder marks it,
+	// with both context flags (APIRequest and SkipLogging).
+	API bool `json:"api_request,omitempty"`
+	// CloseErr: the original body reads cleanly to EOF and then fails on Close
+	// (a body backed by a connection whose peer is gone); only for messages that
+	// are not chunked, where the unlogged path forwards every byte regardless.
+	CloseErr bool `json:"body_close_fails,omitempty"`
 }
 
 func caseOf(driver, stream string, idx int) c15Case {
@@ -215,6 +223,8 @@ func caseOf(driver, stream string, idx int) c15Case {
 	c.Cfg = cfgs[idx%len(cfgs)]
 	c.Resp = (idx/len(cfgs))%2 == 1
 	c.Skip = (idx/(2*len(cfgs)))%6 == 5
+	c.API = c.Skip && (idx/(12*len(cfgs)))%2 == 1
+	c.CloseErr = (idx/(2*len(cfgs)))%5 == 3
 	if !c.Resp {
 		c.Rewrite = [...]string{"", "", "", "", "origin-form", "path-query", "host-scheme", "all"}[(idx/(2*len(cfgs)))%8]
 	}
@@ -222,7 +232,7 @@ func caseOf(driver, stream string, idx int) c15Case {
 }
 
 func genOpts(key string, proxy bool) msgx.GenOpts {
-	return msgx.GenOpts{Key: key, Rich: true, BadForms: true, Zlib: true, Proxy: proxy}
+	return msgx.GenOpts{Key: key, Rich: true, BadForms: true, Zlib: true, BadQuery: true, Proxy: proxy}
 }
 
 func inputClass(s *msgx.Spec) string {
@@ -230,6 +240,8 @@ func inputClass(s *msgx.Spec) string {
 	switch {
 	case strings.HasPrefix(s.BodyKind, "bad"):
 		return "unparseable-form"
+	case s.BadQuery:
+		return "malformed-query-escape"
 	case len(s.WireBody()) == 0 && enc:
 		return "empty-body+content-encoding"
 	case s.CodingKind == "zlib":
@@ -299,6 +311,17 @@ func headerDiffIsWarning(a, b *msgx.Parsed) (bool, string) {
 
 type twin struct {
 	e *env
+}
+
+// errBodyClose is what an instrumented body returns from Close.
+var errBodyClose = errors.New("harness: body close failed after a complete read")
+
+// closeFailBody reads like the body it wraps and fails on Close.
+type closeFailBody struct{ io.ReadCloser }
+
+func (b closeFailBody) Close() error {
+	b.ReadCloser.Close()
+	return errBodyClose
 }
 
 func stubRequest(method, target string) *http.Request {
@@ -375,7 +398,20 @@ func (t *twin) one(r *vh.Run, c c15Case) {
 	}
 	defer remove()
 	if c.Skip {
+		if c.API {
+			ctx.APIRequest()
+		}
 		ctx.SkipLogging()
+	}
+	// --- fault: the original body fails on Close after a complete read
+	closeErr := c.CloseErr && s.Framing != "chunked" && len(s.WireBody()) > 0
+	if closeErr {
+		if c.Resp {
+			resA.Body, resB.Body = closeFailBody{resA.Body}, closeFailBody{resB.Body}
+		} else {
+			reqA.Body, reqB.Body = closeFailBody{reqA.Body}, closeFailBody{reqB.Body}
+		}
+		witness["fault"] = "body Close() returns an error after EOF"
 	}
 
 	// --- the logger under test
@@ -390,7 +426,13 @@ func (t *twin) one(r *vh.Run, c c15Case) {
 		hl = newHAR(c.Cfg.Opt)
 		if c.Resp {
 			if err := hl.ModifyRequest(reqB); err != nil {
-				inconc("har.Logger failed on the stub request: " + err.Error())
+				// the request this response answers is a plain bodiless request with the generated target
+				witness["logger_error"] = err.Error()
+				stubClass := "plain"
+				if reqSpec.BadQuery {
+					stubClass = "malformed-query-escape"
+				}
+				viol("C15:no-error:"+stubClass, fmt.Sprintf("har (%s) returned an error for the bodiless request the response answers (%s %s): %v", c.Cfg.Opt, s.Method, reqSpec.Target, err))
 				return
 			}
 			logErr = hl.ModifyResponse(resB)
@@ -437,7 +479,11 @@ func (t *twin) one(r *vh.Run, c c15Case) {
 	}
 	if logErr != nil {
 		witness["logger_error"] = logErr.Error()
-		viol("C15:no-error:"+inputClass(s), fmt.Sprintf("%s (%s) returned an error, which the proxy turns into a Warning header on the forwarded message: %v", c.Cfg.Logger, c.Cfg.Opt, logErr))
+		cls := inputClass(s)
+		if closeErr && errors.Is(logErr, errBodyClose) {
+			cls = "body-close-error"
+		}
+		viol("C15:no-error:"+cls, fmt.Sprintf("%s (%s) returned an error, which the proxy turns into a Warning header on the forwarded message: %v", c.Cfg.Logger, c.Cfg.Opt, logErr))
 	}
 
 	// --- serialise both twins the way the proxy forwards them
@@ -447,6 +493,15 @@ func (t *twin) one(r *vh.Run, c c15Case) {
 		errA, errB = resA.Write(&bufA), resB.Write(&bufB)
 	} else {
 		errA, errB = reqA.Write(&bufA), reqB.Write(&bufB)
+	}
+	// A body whose Close fails makes net/http's Write return that error after the
+	// last body byte was written (the unlogged path forwards the complete message);
+	// the bytes are what is compared.
+	if closeErr && errors.Is(errA, errBodyClose) {
+		errA = nil
+	}
+	if closeErr && errors.Is(errB, errBodyClose) {
+		errB = nil
 	}
 	if errA != nil {
 		inconc("serialising the unlogged twin failed: " + errA.Error())
@@ -515,7 +570,7 @@ func (t *twin) one(r *vh.Run, c c15Case) {
 				viol("C15:skip-logging:marbl.Modifier", fmt.Sprintf("exchange marked SkipLogging produced %d marbl frames", n))
 			}
 		}
-		r.Class("skip-logging|" + c.Cfg.Logger)
+		r.Class(fmt.Sprintf("skip-logging|%s|api=%v", c.Cfg.Logger, c.API))
 	} else {
 		switch c.Cfg.Logger {
 		case "text":
@@ -528,6 +583,9 @@ func (t *twin) one(r *vh.Run, c c15Case) {
 	// --- the snapshot itself
 	if mv != nil && logErr == nil && captured {
 		checkSnapshot(r, c, s, mv, wantTarget, witness)
+	}
+	if closeErr {
+		r.Class("body-close-fails|" + c.Cfg.Logger + "/" + c.Cfg.Opt + "|" + s.Kind())
 	}
 	if c.Rewrite != "" {
 		r.Class("rewrite|" + c.Rewrite + "|" + c.Cfg.Logger + "/" + c.Cfg.Opt)
@@ -723,15 +781,15 @@ func runTwin(r *vh.Run, k int) {
 
 type skipSet struct {
 	mu sync.Mutex
-	m  map[string]bool
+	m  map[string]int // 0 log, 1 SkipLogging, 2 APIRequest + SkipLogging
 }
 
-func (s *skipSet) set(k string, v bool) {
+func (s *skipSet) set(k string, v int) {
 	s.mu.Lock()
 	s.m[k] = v
 	s.mu.Unlock()
 }
-func (s *skipSet) get(k string) bool {
+func (s *skipSet) get(k string) int {
 	s.mu.Lock()
 	defer s.mu.Unlock()
 	return s.m[k]
@@ -753,7 +811,7 @@ type proxyRun struct {
 }
 
 func newProxyRun() *proxyRun {
-	p := &proxyRun{e: newEnv(), rigs: map[logCfg]*loggedRig{}, skips: &skipSet{m: map[string]bool{}}}
+	p := &proxyRun{e: newEnv(), rigs: map[logCfg]*loggedRig{}, skips: &skipSet{m: map[string]int{}}}
 	p.plain = msgx.NewRig(nil)
 	return p
 }
@@ -805,8 +863,13 @@ func (p *proxyRun) rigFor(cfg logCfg) *loggedRig {
 	skips := p.skips
 	lr.rig = msgx.NewRig(func(px *martian.Proxy) {
 		px.SetRequestModifier(martian.RequestModifierFunc(func(req *http.Request) error {
-			if skips.get(msgx.KeyOf(req.URL.Path)) {
+			switch skips.get(msgx.KeyOf(req.URL.Path)) {
+			case 1:
 				martian.NewContext(req).SkipLogging()
+			case 2: // what api.Forwarder does to the context
+				ctx := martian.NewContext(req)
+				ctx.APIRequest()
+				ctx.SkipLogging()
 			}
 			return reqmod.ModifyRequest(req)
 		}))
@@ -836,8 +899,15 @@ func (p *proxyRun) one(r *vh.Run, c c15Case) {
 		r.Inconclusive(why, witness)
 	}
 	lr := p.rigFor(c.Cfg)
-	p.skips.set(key, c.Skip)
-	defer p.skips.set(key, false)
+	mark := 0
+	if c.Skip {
+		mark = 1
+		if c.API {
+			mark = 2
+		}
+	}
+	p.skips.set(key, mark)
+	defer p.skips.set(key, 0)
 	if c.Skip && c.Cfg.Logger == "marbl" && !p.e.flushMarbl() {
 		inconc("marbl stream did not flush the sentinel within the watchdog")
 		return
@@ -969,6 +1039,8 @@ func runProxy(r *vh.Run, k int) {
 		// in the proxy driver a case carries a request and a response; skip every 6th
 		c.Resp = true
 		c.Skip = idx%6 == 5
+		c.API = c.Skip && idx%12 == 11
+		c.CloseErr, c.Rewrite = false, ""
 		r.Case(c)
 		p.one(r, c)
 	}
